@@ -46,10 +46,13 @@ def search(pid, violation, repo, seed, budget_ms=20000):
         w = json.loads(line)
     except ValueError:
         return {'found': False, 'error': 'unparsable witness output', 'raw': p.stdout[-500:]}
+    if w.get('found') and w.get('scenario'):
+        w['seed'] = seed + 1
     if w.get('found'):
         w['note'] = ('input found by bounded native search on the real crate (real hashbrown): random operation sequences, each step judged '
                      'against an executable rendering of the contracts for that operation; only failures tagged with this property count')
-        w['rerun'] = rerun_cmd(w)
+        if not w.get('scenario'):
+            w['rerun'] = rerun_cmd(w)
     return w
 
 
@@ -58,7 +61,17 @@ def rerun_cmd(w):
 
 
 def rerun(w, repo):
+    if w.get('kind', '').startswith('kani'):
+        print('Kani counterexample (concrete value of every kani::any() of the harness, as a unit test for `cargo kani playback`):')
+        print(w.get('unit_test') or '(none)')
+        return 0
     exe = build(repo)
+    if w.get('scenario'):
+        # instrumented scenario (C06 / C16 / C20): deterministic in the seed
+        prop = w['scenario'].split('::')[-1]
+        p = subprocess.run([exe, 'search', str(w.get('seed', 1)), '20000', '', prop], stdout=subprocess.PIPE, stderr=subprocess.DEVNULL, text=True, timeout=120)
+        print(p.stdout.strip())
+        return p.returncode
     p = subprocess.run([exe] + rerun_cmd(w), stdout=subprocess.PIPE, stderr=subprocess.STDOUT, text=True, timeout=120)
     print(p.stdout.strip())
     return p.returncode
